@@ -117,3 +117,8 @@ Proof.
   - exact (sinv_reach tasks deps validate rank Hnd Hrank Hclosed ls boot s (invq_boot tasks deps) sinv_boot Hr).
 Qed.
 Print Assumptions C02_engine_quiet_commands_once_per_attempt.
+
+Theorem C02_engine_quiet_commands_attempt_ends_only_by_retry : forall tasks deps validate s l s' t,
+  step tasks deps validate true true s l = Some s' -> started s t = true -> l <> Rearm t -> started s' t = true.
+Proof. exact quiet_started_kept. Qed.
+Print Assumptions C02_engine_quiet_commands_attempt_ends_only_by_retry.
